@@ -279,6 +279,7 @@ func runC13(p *core.Prog, r *core.Result) {
 		"R13.5 a dry run leaves nothing behind in memory that a later run reads: it does not write runTarget.changed (which real runs read and which is never reset), its own mark carries the number of the run, and that number advances before every run - so on a Project used for several runs (REPL, run() builtin, watch) a dry run does not change what the next real build does",
 		"R13.6 evaluating a target does not write into the record it was loaded with: the map that collects the dependencies' current stamps is created by the evaluation (make / a literal on every path), and no map update or delete in Evaluate's dependency code has a map taken from Target.info() as its subject - the record's Dependencies map is shared with the target's in-memory record, so updating it in place makes a dry run erase the evidence (a stale recorded stamp) that the next run on the same Project needs to find the target out of date",
 		"R13.7 the dry run and the real build decide on the same project: every command of cmd/dawn that goes on to Project.Run / Project.Watch loads the project with the index argument constantly false (never with the dry-run flag): targets loaded from the saved index know nothing of edited target bodies, always=True, generated sources or flag arguments, so a dry run decided on them does not predict the real build",
+		"R13.8 the real build attempts what the dry run reports, apart from what is downstream of a failure: in package runner the invocation of Target.Evaluate is conditional on nothing but the outcome of loading that very target - a condition on state of the whole run (a flag set when some other target fails) makes the real build skip out-of-date targets that do not depend on the failed one",
 		"R13.3 the dry-run flag is assigned on every path of RunOptions.apply (it cannot leak into the next run)",
 		"R13.4 'evaluating' is reported before the dry-run test",
 	}
@@ -338,6 +339,7 @@ func runC13(p *core.Prog, r *core.Result) {
 	// R13.6 the loaded record is not written through
 	checkRecordNotWrittenThrough(p, r, m, "R13.6")
 	checkBuildLoadsBuildFiles(p, r, "R13.7")
+	checkEvaluateUnconditional(p, r, "R13.8")
 
 	// R13.2
 	impls := targetImpls(p, "evaluate")
